@@ -440,7 +440,12 @@ impl PacketContents {
             return false;
         }
         // current size + chunk header + chunk length
-        self.data.len() + protocol::chunk_header_size(vital) + data.len() <= MAX_PAYLOAD
+        //
+        // `MAX_PAYLOAD` is the limit for the data of a single chunk; the
+        // chunks of a packet, including their headers, can fill the whole
+        // packet after the packet header.
+        self.data.len() + protocol::chunk_header_size(vital) + data.len()
+            <= MAX_PACKETSIZE - protocol::HEADER_SIZE
     }
     fn clear(&mut self) {
         *self = PacketContents::new();
